@@ -28,6 +28,11 @@ pub struct Plan {
     pub fetch_fail_pm: u64,
     pub in_order_fetch: bool,
     pub disconnect_at: Option<u64>,
+    /// the syncer runs with blockchain.initial_loading_completed = true (an embedding application's
+    /// switch; the shipped binaries leave it false): blocks whose parent is unknown are then parked
+    /// and retried instead of taking the orphan branch, so every fetch completion order must converge
+    #[serde(default)]
+    pub loading_completed: bool,
 }
 
 fn gen(seed: u64, tier: Tier) -> Plan {
@@ -51,6 +56,7 @@ fn gen(seed: u64, tier: Tier) -> Plan {
         fetch_fail_pm: if rng.chance(1, 3) { 150 } else { 0 },
         in_order_fetch: rng.chance(1, 2),
         disconnect_at: if rng.chance(1, 5) { Some(rng.range(5, 60)) } else { None },
+        loading_completed: rng.chance(1, 3),
     }
 }
 
@@ -61,7 +67,7 @@ impl Scenario for C15 {
     fn meta(&self) -> Meta {
         Meta {
             level: "exploration",
-            rule: "run = two real full nodes (routing, verification, consensus processors; SimNet; fetch server reading the peer's simulated disk). Peer holds prefix+Y, syncer prefix+X with |Y| > |X| (prefix 0..35/120 so that 0, one or several fork-id checkpoints are populated; X empty, or 1..8/30 blocks). The syncer dials its static peer; real handshake; BlockchainRequest; header-hash stream; fetch batch size in {1,2,3,10}. Seeded scheduling of every pending message / channel item / fetch completion; faults: duplicated messages (5%), failed fetches (15%, retried by the timer path), one forced disconnect + reconnect; fetch completions either FIFO or in any order. Oracle: the set of header hashes the peer streams covers every block of Y after the true fork point; after faults stop, within 80 rounds of (run to quiescence, advance 2.1 s, tick routing timers) the syncer's tip equals the peer's tip; no processor panics. distinct_nontrivial = distinct (prefix, |X|, |Y|, fault set, schedule digest) that reached quiescence.",
+            rule: "run = two real full nodes (routing, verification, consensus processors; SimNet; fetch server reading the peer's simulated disk). Peer holds prefix+Y, syncer prefix+X with |Y| > |X| (prefix 0..35/120 so that 0, one or several fork-id checkpoints are populated; X empty, or 1..8/30 blocks). The syncer dials its static peer; real handshake; BlockchainRequest; header-hash stream; fetch batch size in {1,2,3,10}. Seeded scheduling of every pending message / channel item / fetch completion; faults: duplicated messages (5%), failed fetches (15%, retried by the timer path), one forced disconnect + reconnect; fetch completions either FIFO or in any order; in a third of the runs the syncer is configured with initial_loading_completed = true (park-and-retry of blocks whose parent is unknown instead of the orphan branch), where every completion order must converge. Oracle: the set of header hashes the peer streams covers every block of Y after the true fork point; after faults stop, within 80 rounds of (run to quiescence, advance 2.1 s, tick routing timers) the syncer's tip equals the peer's tip; no processor panics. distinct_nontrivial = distinct (prefix, |X|, |Y|, fault set, schedule digest) that reached quiescence.",
             real: &["RoutingThread", "VerificationThread", "ConsensusThread", "Network/Peer handshake", "BlockchainSyncState", "Blockchain::generate_fork_id/generate_last_shared_ancestor/add_block", "Message codecs", "Storage"],
             stubs: &["SimNet (ordered per-connection queues)", "fetch server over the peer's SimDisk", "SimClock", "event-granularity scheduler instead of tokio (handlers run to completion)", "MiningThread idle"],
             assumptions: &["16-bit fork-id prefix collisions (2^-16 per checkpoint) are ignored", "out-of-order fetch completion that delivers a child before its parent is the orphan class (known finding of C03/C05) and is reported under its own signature"],
@@ -118,6 +124,10 @@ impl Scenario for C15 {
         let peer_cfg = w.cfg.clone();
         let mut sync_cfg = w.cfg.clone();
         sync_cfg.peers = vec![static_peer("node0")];
+        sync_cfg.blockchain.initial_loading_completed = plan.loading_completed;
+        if plan.loading_completed {
+            r.probe("syncer_with_loading_completed");
+        }
         let p = sim.add_node(&w.keys[0].clone(), &peer_cfg, &opts);
         let s = sim.add_node(&w.keys[2].clone(), &sync_cfg, &opts);
         let bytes = |v: &Vec<usize>| -> Vec<Vec<u8>> { v.iter().map(|i| w.recs[*i].bytes.clone()).collect() };
@@ -177,7 +187,7 @@ impl Scenario for C15 {
                         if fails {
                             a = Action::FetchFail(i);
                         } else {
-                            if !known {
+                            if !known && !(plan.loading_completed && f.node == s) {
                                 orphan_risk = true;
                             }
                             completed.push((f.node, f.hash));
@@ -270,7 +280,7 @@ impl Scenario for C15 {
         } else {
             r.probe("converged");
             let mut d = Digest::new();
-            d.u64(plan.prefix as u64).u64(plan.x_suffix as u64).u64(plan.y_suffix as u64).u64(plan.dup_pm).u64(plan.fetch_fail_pm).u64(plan.in_order_fetch as u64).u64(sim.schedule_digest.get());
+            d.u64(plan.prefix as u64).u64(plan.x_suffix as u64).u64(plan.y_suffix as u64).u64(plan.dup_pm).u64(plan.fetch_fail_pm).u64(plan.in_order_fetch as u64).u64(plan.loading_completed as u64).u64(sim.schedule_digest.get());
             r.nontrivial.push(d.get());
         }
         let mut t = Digest::new();
